@@ -210,6 +210,10 @@ add("C18", "C18-no-free-tile-for-a-pole-next-to-a-consumer",
     witness("C18-no-free-tile-for-a-pole-next-to-a-consumer"))
 
 
+# ---- C11 (the const_to_input twin adds an input next to the constant's consumers)
+add("C11", K1, K1_WHAT + "; seen in the twin build of C11, where the constant operand is an input", "K1", witness("C11-K1"))
+
+
 # ---- C12
 add("C12", K1, K1_WHAT + "; which connectors get chained depends on the layout, so a component hit by it can behave "
     "differently alone and inside a larger program", "K1", witness("C12-K1"))
